@@ -87,6 +87,7 @@ type Frame struct {
 	cur      *HeapState
 	curReach string
 	curBlock *ssa.BasicBlock
+	freshRoots bool // set by stableCells: some stores of the loop go to memory allocated in its body
 	curPos   string // source position of the instruction being executed (for safety obligations)
 	contract *Contract
 	rets     []*retInfo
